@@ -307,7 +307,7 @@ public:
                 s.tracks[0].eotTick = 192;
                 std::vector<uint8_t> smf = writeSmf(s, false);
                 if(opn2_openData(dev, smf.data(), (unsigned long)smf.size()) != 0) { run.fail("smf-load-failed", sName(o.kind), opn2_errorInfo(dev)); break; }
-                deviceId = pl->m_sysExDeviceId; // whatever the load left (C18's business), the reference follows it
+                // the device id is the one the user set: a file load must not re-address the synthesizer (the reference does NOT follow the library here)
                 SxDecision d = refSysEx(o.blob, deviceId);
                 opn2_tickEvents(dev, 0.001, 0.0);
                 if(d.verdict == SX_ACCEPT)
